@@ -2556,6 +2556,10 @@ func (s *Store) fsmApply(l *raft.Log) (e any) {
 		stats.Get(fsmApplyDuration).(*expvar.Int).Set(time.Since(startT).Microseconds())
 	}()
 
+	if verifhook.Enabled {
+		verifhook.Note("store.fsm.apply "+s.raftID+" "+string(l.Data), int64(l.Index))
+	}
+
 	if s.firstLogAppliedT.IsZero() {
 		s.firstLogAppliedT = time.Now()
 		s.logger.Printf("first log applied since node %s started, log at index %d", s.raftID, l.Index)
